@@ -709,6 +709,10 @@ func (g *Gen) makeInterface(v Val, it types.Type) Val {
 	if !g.declared[key] {
 		g.declared[key] = true
 		g.assume(fmt.Sprintf("(and (not (= %s iface.nil)) (= (iface.type %s) %d) (= (unbox.%s %s) %s))", r, r, tag, id, r, v.S))
+		if _, isPtr := v.T.Underlying().(*types.Pointer); isPtr {
+			g.uf("iface.ref", []string{"Iface"}, "Int")
+			g.assume(fmt.Sprintf("(= (iface.ref %s) %s)", r, v.S))
+		}
 	}
 	return Val{T: it, S: r}
 }
